@@ -86,6 +86,23 @@ func c16CheckPair(a, b nameParts) (string, string) {
 		return "order-mismatch", fmt.Sprintf("Compare(%q,%q)=%d but tuple order says %d",
 			a.name(), b.name(), got, want)
 	}
+	// the order is one of byte strings: it cannot depend on where the bytes live. Names are sub-slices of
+	// decoded buffers in the client; compare views into ONE buffer: back to back, and - where one name is a
+	// byte prefix of the other - the shorter one as a prefix view of the longer
+	an, bn := a.name(), b.name()
+	buf := append(append(make([]byte, 0, len(an)+len(bn)), an...), bn...)
+	if r, p := safeCompare(buf[:len(an):len(an)], buf[len(an):]); p != nil || sign(r) != sign(want) {
+		return "order-depends-on-memory", fmt.Sprintf("Compare(%q,%q)=%d (panic %v) when both names lie back to back in one buffer, tuple order says %d", an, bn, r, p, want)
+	}
+	if len(an) <= len(bn) && bytes.HasPrefix(bn, an) {
+		shared := append([]byte(nil), bn...)
+		if r, p := safeCompare(shared[:len(an)], shared); p != nil || sign(r) != sign(want) {
+			return "order-depends-on-memory", fmt.Sprintf("Compare(%q,%q)=%d (panic %v) when the first name is a prefix view of the second's buffer, tuple order says %d", an, bn, r, p, want)
+		}
+		if r, p := safeCompare(shared, shared[:len(an)]); p != nil || sign(r) != -sign(want) {
+			return "order-depends-on-memory", fmt.Sprintf("Compare(%q,%q)=%d (panic %v) when the second name is a prefix view of the first's buffer, tuple order says %d", bn, an, r, p, -want)
+		}
+	}
 	return "", ""
 }
 
@@ -147,7 +164,21 @@ func c16GenName(t *rapid.T, pool []nameParts) nameParts {
 		// derive from an existing name so that components coincide
 		base := pool[rapid.IntRange(0, len(pool)-1).Draw(t, "base")]
 		n := nameParts{Table: base.Table, Key: base.Key, ID: base.ID}
-		switch rapid.IntRange(0, 4).Draw(t, "what") {
+		switch rapid.IntRange(0, 6).Draw(t, "what") {
+		case 5:
+			// a name that is a byte prefix of the base name: a shorter id
+			if len(base.ID) > 1 {
+				n.ID = base.ID[:rapid.IntRange(1, len(base.ID)-1).Draw(t, "idcut")]
+			}
+		case 6:
+			// ... or cut inside the key at one of its commas: "t,x,1" against "t,x,1,2,5"
+			if p := bytes.IndexByte(base.Key, ','); p >= 0 && p+1 < len(base.Key) && base.Key[p+1] != ',' {
+				rest := base.Key[p+1:]
+				if q := bytes.IndexByte(rest, ','); q > 0 {
+					rest = rest[:q]
+				}
+				n.Key, n.ID = base.Key[:p], rest
+			}
 		case 4:
 			n.Key = gen.Perturb(t, base.Key)
 		case 0:
@@ -196,7 +227,7 @@ func TestC16_Generated(t *testing.T) {
 		"rapid: lists of 2..6 region names built from (table, start key, id) components with "+
 			"prefix-related tables, comma/neighbour bytes in keys, long keys (up to 40 bytes, word-aligned common prefixes, one byte perturbed "+
 			"anywhere incl. top-bit flips), ids of different lengths and "+
-			"search keys; all ordered pairs, all triples (transitivity) and sortedness are checked "+
+			"search keys, names that are byte prefixes of other names; all ordered pairs (also as views into one shared buffer: back to back, and prefix views), all triples (transitivity) and sortedness are checked "+
 			"against the component-wise tuple order. Non-trivial = some pair has prefix-related "+
 			"tables, a comma in a key, or raw byte order disagreeing with tuple order; distinct by "+
 			"hash of the name list")
